@@ -63,3 +63,10 @@ Print Assumptions C12_only_rejected_cells_are_errors.
 Theorem C12_error_exported_verbatim : forall keep conv e l, export_token keep conv (TError e l) = Ok e.
 Proof. exact error_token_verbatim. Qed.
 Print Assumptions C12_error_exported_verbatim.
+
+(* obligation regenerated from the source on every run: the code this property runs through keeps exactly the state the
+   model knows (no new attribute, class-level table, module-level binding or caching decorator), see proofs/State*Proofs.v *)
+From KV Require Import StateGen StateBase StateImportProofs.
+Theorem C12_state_as_modelled : state_import = modelled_state_import.
+Proof. exact state_import_as_modelled. Qed.
+Print Assumptions C12_state_as_modelled.
